@@ -71,7 +71,8 @@ def run(ck):
         "compressed size); the inflated size is bounded only by PerMessageDeflate max_message_size (C16_decompress_cap)",
         "independent oracle: ws_recv.rfc_judge with the configured limits + differential run without limits + real zlib",
     ]
-    ck.rule.append("grid limit {1,125,126,65535,65536} x {message,frame} limit x size {limit-1,limit,limit+1,10*limit} x 5 fragment "
+    ck.rule.append("grid limit {1,125,126,65535,65536} x {message limit, frame limit, both set in one setProtocolOptions call (equal / either smaller)} x "
+                   "{OPEN, CLOSING after a local sendClose()} x size {limit-1,limit,limit+1,10*limit} x 5 fragment "
                    "layouts x role x failure policy x (whole stream | headers only up to the offending frame | 2 random cuts) x "
                    "framework; sendMessage at limit-1/limit/limit+1; compressed messages around a decompression cap with real zlib. "
                    "non-trivial = a data frame header reaches onMessageFrameBegin with a limit configured; distinct = distinct "
@@ -113,19 +114,40 @@ def run(ck):
     rng = ck.rng("grid")
     limits = [1, 125, 126, 65535, 65536]
     model_cases = []
+    def limit_kinds(L):
+        """(label, maxMessagePayloadSize, maxFramePayloadSize): one limit at a time, and both set through the same
+        setProtocolOptions call (equal values, and each one the smaller)"""
+        ks = [("msg", L, 0), ("frame", 0, L)]
+        if L <= 126 or not quick:
+            ks += [("both-equal", L, L)]
+        if L <= 126:
+            ks += [("both-msg-smaller", L, 2 * L + 1), ("both-frame-smaller", 2 * L + 1, L)]
+        return ks
+
+    def overage(c, m):
+        """(over?, index of the first offending data frame) from the configured limits and the declared frame lengths"""
+        tot = 0
+        for j, fl in enumerate(m["frames"]):
+            tot += fl
+            if (0 < c["max_msg"] < tot) or (0 < c["max_frame"] < fl):
+                return True, j
+        return False, None
+
     for fw in FWS:
         cases, meta = [], []
         for role in ("server", "client"):
             masked = role == "server"
             for L in limits:
-                for kind in ("msg", "frame"):
+                for kind, lim_msg, lim_frame in limit_kinds(L):
                     sizes = [L - 1, L, L + 1] + ([10 * L] if (L <= 126 or not quick) else [])
+                    if kind.startswith("both"):
+                        sizes = [L, L + 1, 2 * L + 1, 2 * L + 2]
                     for size in sizes:
                         payload = bytes((i * 7 + size) & 0x7F for i in range(size))
                         for lname, frames in layouts(payload, 2 if size % 2 else 1, masked, rng):
                             if quick and L >= 65535 and lname not in ("single", "two"):
                                 continue
-                            if L >= 65535 and size == 10 * L and lname != "single":
+                            if L >= 65535 and size >= 2 * L and lname != "single":
                                 continue            # 0.6 MB payloads: one layout is enough (JSON volume)
                             stream = b"".join(frames)
                             # headers only: cut right after the header of each data frame in turn (payload withheld)
@@ -135,84 +157,88 @@ def run(ck):
                                 cuts.append(pos + header_len(f))
                                 pos += len(f)
                             for fbd in (True, False):
-                                if L >= 65535 and size == 10 * L and not fbd:
+                                if L >= 65535 and size >= 2 * L and not fbd:
                                     continue
-                                cfgc = dict(BASE, role=role, fbd=fbd, max_msg=(L if kind == "msg" else 0),
-                                            max_frame=(L if kind == "frame" else 0))
-                                variants = [("whole", [stream])]
-                                variants += [(f"hdr{k}", [stream[:c]]) for k, c in enumerate(cuts)]
-                                if len(stream) > 3:
-                                    a, b = sorted((rng.randint(1, len(stream) - 1), rng.randint(1, len(stream) - 1)))
-                                    variants.append(("cuts", [stream[:a], stream[a:b], stream[b:]]))
-                                if len(stream) <= 24:
-                                    variants.append(("octets", [stream[i:i + 1] for i in range(len(stream))]))
-                                for vname, chunks in variants:
-                                    c = dict(cfgc, chunks=[x.hex() for x in chunks])
-                                    cases.append(c)
-                                    meta.append(dict(L=L, kind=kind, size=size, layout=lname, variant=vname, role=role, fbd=fbd,
-                                                     total=size, frames=[len(f) - header_len(f) for f in frames if (f[0] & 15) < 8]))
-                                    # the same stream with no limit configured (differential)
-                                    if vname == "whole":
-                                        cases.append(dict(cfgc, max_msg=0, max_frame=0, chunks=[stream.hex()]))
-                                        meta.append(dict(nolimit=True))
+                                # closing = the APPLICATION called sendClose() before the traffic arrives (state CLOSING,
+                                # not failed): the limits must hold there too
+                                for closing in (False, True):
+                                    cfgc = dict(BASE, role=role, fbd=fbd, max_msg=lim_msg, max_frame=lim_frame, closing=closing)
+                                    variants = [("whole", [stream])]
+                                    variants += [(f"hdr{k}", [stream[:c]]) for k, c in enumerate(cuts)]
+                                    if len(stream) > 3 and not closing:
+                                        a, b = sorted((rng.randint(1, len(stream) - 1), rng.randint(1, len(stream) - 1)))
+                                        variants.append(("cuts", [stream[:a], stream[a:b], stream[b:]]))
+                                    if len(stream) <= 24:
+                                        variants.append(("octets", [stream[i:i + 1] for i in range(len(stream))]))
+                                    if closing and L >= 65535 and size > L + 1:
+                                        continue
+                                    for vname, chunks in variants:
+                                        c = dict(cfgc, chunks=[x.hex() for x in chunks])
+                                        cases.append(c)
+                                        meta.append(dict(L=L, kind=kind, size=size, layout=lname, variant=vname, role=role, fbd=fbd,
+                                                         total=size, closing=closing,
+                                                         frames=[len(f) - header_len(f) for f in frames if (f[0] & 15) < 8]))
+                                        # the same stream with no limit configured (differential)
+                                        if vname == "whole" and not closing:
+                                            cases.append(dict(cfgc, max_msg=0, max_frame=0, chunks=[stream.hex()]))
+                                            meta.append(dict(nolimit=True))
         ck.log(f"[{fw}] limits grid: {len(cases)} implementation runs")
         results = ck.run_impl("ws_recv.py", {"fw": fw, "cases": cases}, nvx=False, timeout=3000)["results"]
         ck.evaluations += len(cases)
-        ck.note_cases(0, (json.dumps([fw, c["role"], c["fbd"], c["max_msg"], c["max_frame"], [len(x) for x in c["chunks"]], c["chunks"][0][:24]])
+        ck.note_cases(0, (json.dumps([fw, c["role"], c["fbd"], c["closing"], c["max_msg"], c["max_frame"], [len(x) for x in c["chunks"]], c["chunks"][0][:24]])
                           for c in cases if c["max_msg"] or c["max_frame"]))
         last_whole = None
         for i, (c, r, m) in enumerate(zip(cases, results, meta)):
             if m.get("nolimit"):
                 # differential: within the limits the limited run must equal the unlimited one
                 lc, lr, lm = last_whole
-                over = (lm["kind"] == "msg" and lm["total"] > lm["L"]) or (lm["kind"] == "frame" and max(lm["frames"]) > lm["L"])
+                over, _ = overage(lc, lm)
                 if not over and base.canon_result(lr) != base.canon_result(r):
                     ck.violation(f"{lc['role']}/within-limit-differs/{lm['kind']}",
-                                 f"[{fw}] a message within the {lm['kind']} limit {lm['L']} (size {lm['size']}, {lm['layout']}) is handled "
+                                 f"[{fw}] a message within the limits (msg {lc['max_msg']}, frame {lc['max_frame']}; size {lm['size']}, {lm['layout']}) is handled "
                                  f"differently than without a limit: {lr['events'][:3]} vs {r['events'][:3]}",
                                  {"fw": fw, "case": lc, "observed": lr, "nolimit_observed": r}, found_input=True)
                 continue
-            if m["variant"] == "whole":
+            if m["variant"] == "whole" and not m["closing"]:
                 last_whole = (c, r, m)
-            over = (m["kind"] == "msg" and m["total"] > m["L"]) or (m["kind"] == "frame" and max(m["frames"]) > m["L"])
-            ck.bump(f"grid:{m['kind']}:{'over' if over else 'within'}:{m['variant'][:3]}")
+            over, first_bad = overage(c, m)
+            st = "closing" if m["closing"] else "open"
+            ck.bump(f"grid:{m['kind']}:{st}:{'over' if over else 'within'}:{m['variant'][:3]}")
             for key, what in ws_recv.check_against_rfc(c, r):
                 if "control-callback-after-violation" in key or "processing-after-close-frame" in key:
                     continue          # C02's business (reported there), not a statement of C16
-                ck.violation("limits/" + key, f"[{fw}] limit {m['L']} ({m['kind']}), size {m['size']}, {m['layout']}/{m['variant']}: {what}",
+                ck.violation(f"limits/{m['kind']}/{st}/" + key,
+                             f"[{fw}] limits msg={c['max_msg']} frame={c['max_frame']}, state {st}, size {m['size']}, {m['layout']}/{m['variant']}: {what}",
                              {"fw": fw, "case": c, "observed": r, "grid": m}, found_input=True)
             failed = any(e[0] == "drop" for e in r["events"]) or any(e[0] == "sendclose" and e[1] == 1009 for e in r["events"])
             if over and m["variant"] == "whole" and not failed:
-                ck.violation(f"{c['role']}/over-limit-not-failed/{m['kind']}", f"[{fw}] over-limit message (size {m['size']}, limit {m['L']}) did not fail the connection",
+                ck.violation(f"{c['role']}/over-limit-not-failed/{m['kind']}/{st}",
+                             f"[{fw}] over-limit message (size {m['size']}, frames {m['frames']}; limits msg={c['max_msg']} frame={c['max_frame']}, "
+                             f"state {st}) did not fail the connection; delivered {[len(e[1]) // 2 for e in r['events'] if e[0] == 'msg']}",
                              {"fw": fw, "case": c, "observed": r}, found_input=True)
             # early: headers only, cut after the header of the first offending frame -> already failed, nothing buffered
             if over and m["variant"].startswith("hdr"):
                 k = int(m["variant"][3:])
-                fr = m["frames"]
-                run_tot = 0
-                first_bad = None
-                for j, fl in enumerate(fr):
-                    run_tot += fl
-                    if (m["kind"] == "msg" and run_tot > m["L"]) or (m["kind"] == "frame" and fl > m["L"]):
-                        first_bad = j
-                        break
                 # index k counts all frames incl. the ping of the three+ping layout
                 data_idx = k if m["layout"] != "three+ping" else (k if k < 1 else k - 1 if k > 1 else None)
-                if data_idx is not None and first_bad is not None and data_idx == first_bad and not failed:
-                    ck.violation(f"{c['role']}/not-early/{m['kind']}", f"[{fw}] the header of the offending frame alone (payload withheld) did "
-                                 f"not fail the connection (limit {m['L']}, size {m['size']}, {m['layout']})",
+                if data_idx is not None and data_idx == first_bad and not failed:
+                    ck.violation(f"{c['role']}/not-early/{m['kind']}/{st}", f"[{fw}] the header of the offending frame alone (payload withheld) did "
+                                 f"not fail the connection (limits msg={c['max_msg']} frame={c['max_frame']}, state {st}, size {m['size']}, {m['layout']})",
                                  {"fw": fw, "case": c, "observed": r}, found_input=True)
             if sum(len(x) for x in c["chunks"]) <= 2400 and (i % 3 == 0 or m["variant"].startswith("hdr")):
                 model_cases.append((fw, c, r))
         for c, r in list(zip(cases, results))[:2]:
             ck.sample({"fw": fw, "case": c, "observed": r})
 
-        # ---- sendMessage guard
+        # ---- sendMessage guard (message limit alone, and together with a frame limit of the same / another value)
         scases = []
         for role in ("server", "client"):
             for L in limits:
-                for size in (L - 1, L, L + 1, 2 * L + 3):
-                    scases.append(dict(BASE, role=role, max_msg=L, chunks=[], send={"len": size, "binary": True}, nolost=True))
+                for mf in (0, L, 2 * L + 1):
+                    if mf and L > 126 and quick:
+                        continue
+                    for size in (L - 1, L, L + 1, 2 * L + 3):
+                        scases.append(dict(BASE, role=role, max_msg=L, max_frame=mf, chunks=[], send={"len": size, "binary": True}, nolost=True))
         sres = ck.run_impl("ws_recv.py", {"fw": fw, "cases": scases}, nvx=False, timeout=600)["results"]
         ck.evaluations += len(scases)
         for c, r in zip(scases, sres):
@@ -223,7 +249,8 @@ def run(ck):
             else:
                 okk = r["events"] == [["sendframe", 2, True, 0, size]]
             if not okk:
-                ck.violation(f"{c['role']}/send-guard", f"[{fw}] sendMessage of {size} octets with maxMessagePayloadSize={L}: {r['events']}",
+                ck.violation(f"{c['role']}/send-guard" + ("" if not c["max_frame"] else "/frame-limit-" + ("equal" if c["max_frame"] == L else "other")),
+                             f"[{fw}] sendMessage of {size} octets with maxMessagePayloadSize={L}, maxFramePayloadSize={c['max_frame']}: {r['events']}",
                              {"fw": fw, "case": c, "observed": r}, found_input=True)
 
         # ---- decompression cap, real zlib
